@@ -1,5 +1,6 @@
 import JrsVerif.Common.J
 import JrsVerif.Model.Eval
+import JrsVerif.Model.Bind
 
 namespace JrsVerif.Drv.C01
 open Lean JrsVerif.J JrsVerif.Eval
@@ -112,8 +113,38 @@ def outcomeJson (o : Outcome) : Json :=
   | .error cls msg tr => obj [("err", .str cls), ("trace", ofStrs tr), ("_msg", .str msg)]
   | .undecided why => obj [("skip", .bool true), ("_why", .str why)]
 
+def srcJson : Bind.Src → Json
+  | .pos i => .arr #[.str "pos", toJson i]
+  | .named k => .arr #[.str "named", toJson k]
+  | .dflt => .arr #[.str "dflt"]
+
+def bindCall (j : Json) : Option Json := do
+  let ps : List Bind.Param ← (← arr? j "params").toList.mapM (fun p => do
+    match p with
+    | .arr #[.str n, .bool d] => some (n, d)
+    | _ => none)
+  let npos ← nat? j "npos"
+  let named := strs (← arr? j "named")
+  let model : Json := match Bind.parseCall ps npos named with
+    | .ok env => obj [("ok", .arr (ps.map (fun p => match Bind.lookup env p.1 with
+        | some s => srcJson s | none => Json.null)).toArray)]
+    | .err e => obj [("err", .str (match e with
+        | .tooMany => "tooMany" | .unknown _ => "unknown" | .twice _ => "twice" | .unbound _ => "unbound"))]
+    | .unreachable => obj [("panic", .str "unreachable")]
+  -- reference: the language rule (class-level for errors)
+  let spec : Json :=
+    if Bind.specOk ps npos named then
+      obj [("ok", .arr ((List.range ps.length).map (fun i => match ps[i]? with
+        | some p => (match Bind.specSrc npos named i p with | some s => srcJson s | none => Json.null)
+        | none => Json.null)).toArray)]
+    else obj [("err", .str "*")]
+  some (obj [("model", model), ("spec", spec)])
+
 def handle (op : String) (j : Json) : Option Json :=
   match op with
+  | "bind.call" => match bindCall j with
+    | some r => some r
+    | none => some (bad "bind.call: parse")
   | "eval.run" =>
     match (do pExpr (← val? j "ast")) with
     | none => some (obj [("skip", .bool true), ("_why", .str "ast outside the modelled fragment")])
